@@ -211,7 +211,7 @@ BOUNDS = {
              'delta up to 2^35; header symbolic; payload lengths 0,1,127,128,129,16383,16384; refusal cases; fixed point '
              'for every track body of <=5 arbitrary bytes',
     'thorough': 'additionally all triples over 11 representative kinds with ALL deltas full-range, 4-message shapes, '
-                'track bodies of <=6 arbitrary bytes',
+                'track bodies of <=6 arbitrary bytes (meta events of types 0x00..0x50 up to 5 bytes)',
 }
 OUTSIDE = 'more than 4 messages per track, more than 2 tracks; smpte hours >= 32 (finding recorded under C09); text beyond ' \
           'the menu; kinds sequences not listed; negative division (SMPTE) headers; fixed point for longer track bodies'
@@ -265,7 +265,9 @@ def JOBS(tier):
         for part in PARTS:
             if part == (255, 255):
                 # meta events: split further on the meta type byte (0x59 key_signature alone enumerates 65536 payloads)
-                for part2 in ((0, 0x50), (0x51, 0x58), (0x59, 0x59), (0x5A, 0x7E), (0x7F, 0xFF)):
+                # (meta types 0x00..0x50 - the text events - are left at N<=5: two free text bytes alone are 65536
+                #  decodings each)
+                for part2 in ((0x51, 0x58), (0x59, 0x59), (0x5A, 0x7E), (0x7F, 0xFF)):
                     jobs.append((lsl, {'N': 6, 'part': part, 'part2': part2}, {'cost': 90000, 'deadline_s': 3000}))
             else:
                 jobs.append((lsl, {'N': 6, 'part': part}, {'cost': 30000}))
